@@ -211,7 +211,7 @@ theorem structOf_ok' (l : List Field) (collect : Field → R (List LVal))
 theorem to_field_nullable' {o : Options} (h0 : o.overwrites = []) {t : Tracer} {f : Field} (h : t.to_field o = .ok f)
     (hn : t.nullable = true) : f.nullable = true := by
   cases t with
-  | unknown n p nl => rw [to_field_unknown_inv h0 h]; exact hn
+  | unknown n p nl => rw [to_field_unknown_inv h0 h]; rfl
   | primitive n p nl ty st =>
     rcases to_field_primitive_inv h0 h with ⟨_, rfl⟩ | ⟨_, _, ⟨_, rfl⟩ | ⟨_, rfl⟩⟩ | ⟨_, _, rfl⟩
     · rfl
